@@ -761,5 +761,20 @@ theorem retry_monitor_accepts_model (rs : List (Bytes × JVal)) (state : Bytes) 
     · simp [hd]
   simp [retryMonitor, r1, r2, r3]
 
+/-! ## `ToolAnnotations` -/
+
+def modelAnn (compat : Bool) (a : ToolAnn) : AnnObs :=
+  { written := some (encodeAnn compat a),
+    back := match decodeAnn (encodeAnn compat a) with | .ok b => some b | .error _ => none }
+
+theorem ann_monitor_accepts_model (compat : Bool) (a : ToolAnn) : annMonitor compat a (modelAnn compat a) = none := by
+  have hb : (modelAnn compat a).back = some a := by simp [modelAnn, tool_annotations_roundtrip]
+  cases compat
+  · obtain ⟨kvs, he, h1, h2⟩ := tool_annotations_hints_present a
+    have hp : hintsPresent (modelAnn false a).written = true := by
+      simp only [modelAnn, he, hintsPresent, h1, h2]; rfl
+    simp [annMonitor, hb, hp]
+  · simp [annMonitor, hb]
+
 end Mon
 end Wire
